@@ -21,17 +21,22 @@ MkCon(n, t, i, j, c, sg, k, small) ==
   IN [k |-> k, v |-> Mat(<<IF small # 0 THEN small ELSE c>> \o v)]
 Con(n, w) == CHOOSE r \in {MkCon(n, t, i, j, c, sg, k, small) : t \in {RE(1..9)}, i \in {RE(1..n)}, j \in {RE(1..n)}, c \in {RE(KOf(w)) + RE({0, 0, 0, 1, -1})},
                                                                sg \in {RE({-1, 1})}, k \in {RE({"ge", "ge", "ge", "ge", "eq"})}, small \in {RE({0, 0, 0, 0, 0, 0, -3, 2, 5})}} : TRUE
+\* constraints with small constants and non-unit coefficients, strict ones included: the cases that exercise the rounding of
+\* drop_some_non_integer_points (a x + b y + c > 0 with gcd(a, b) > 1) rather than the quadrant logic of wrap_assign
+MkSmall(n, i, j, a, b, c, k) == [k |-> k, v |-> Mat(<<c>> \o [q \in 1..n |-> IF q = i THEN a ELSE IF q = j THEN b ELSE 0])]
+SmallCon(n) == CHOOSE r \in {MkSmall(n, i, j, a, b, c, k) : i \in {RE(1..n)}, j \in {RE(1..n)}, a \in {RE({1, 2, 2, 3, -1, -2, -2, -3})}, b \in {RE({0, 0, 2, -2, 3, 1})},
+                                                          c \in {RE(-7..7)}, k \in {RE({"ge", "gt", "gt", "gt", "eq"})}} : TRUE
 Cg(n, w) == CHOOSE r \in {[mod |-> md, v |-> Mat(<<b>> \o Unit(n, i, a))] : md \in {RE({0, 1, 2, 3, 4, 64, 256})}, b \in {RE(-5..5)}, i \in {RE(1..n)}, a \in {RE({1, 1, 2})}} : TRUE
 Guard(n, vars, w) == CHOOSE r \in {[k |-> k, v |-> Mat(<<c>> \o Unit(n, i + 1, sg))] : k \in {RE({"ge", "ge", "gt", "eq"})}, c \in {RE(KOf(w)) * RE({1, -1})}, i \in {RE(vars)}, sg \in {RE({-1, 1})}} : TRUE
-MkCase(n, dom, w, vars, hg, ncs, ncg, ng) ==
+MkCase(n, dom, w, vars, hg, ncs, ncg, ng, sm) ==
      [dom |-> dom, n |-> n, w |-> w, rep |-> RE({0, 1}), ovf |-> RE({0, 0, 1, 2}),
-      cs |-> Mat([k \in 1..ncs |-> Con(n, w)]),
+      cs |-> Mat([k \in 1..ncs |-> IF sm = 1 THEN SmallCon(n) ELSE Con(n, w)]),
       cgs |-> Mat([k \in 1..ncg |-> Cg(n, w)]),
       vars |-> SetToSortSeq(vars, <), hg |-> hg, guard |-> IF hg = 1 THEN Mat([k \in 1..ng |-> Guard(n, vars, w)]) ELSE <<>>,
       thr |-> RE({0, 1, 4, 16, 32}), indiv |-> RE({0, 1}), cx |-> RE({0, 1})]
-Draw(x) == CHOOSE r \in {MkCase(n, dom, w, vars, hg, ncs, IF dom = "Grid" THEN ncg ELSE ncg \div 2, ng) :
+Draw(x) == CHOOSE r \in {MkCase(n, dom, w, vars, hg, ncs, IF dom = "Grid" THEN ncg ELSE ncg \div 2, ng, sm) :
                           n \in {RE({1, 2, 2})}, dom \in {RE({"C", "C", "NNC", "Grid", "Grid", "Box", "BDS", "Oct", "PsetC", "PsetN"})}, w \in {RE({8, 8, 8, 16})},
-                          vars \in {RE({{0}, {0}, {1}, {0, 1}})}, hg \in {RE({0, 0, 1})}, ncs \in {RE(0..4)}, ncg \in {RE(0..2)}, ng \in {RE(0..2)}} : TRUE
+                          vars \in {RE({{0}, {0}, {1}, {0, 1}})}, hg \in {RE({0, 0, 1})}, ncs \in {RE(0..4)}, ncg \in {RE(0..2)}, ng \in {RE(0..2)}, sm \in {RE({0, 0, 1})}} : TRUE
 VARIABLES cas, step
 Dummy == [dom |-> "", n |-> 0]
 Init == cas = Dummy /\ step = 0
